@@ -343,6 +343,10 @@ func TestVerifC03Tight(t *testing.T) {
 	if err != nil {
 		t.Fatalf("mmap: %v", err)
 	}
+	if prop == "C14" {
+		// the run is traced (strace, mprotect): every protection change on the placeholder arena must keep PROT_EXEC
+		c14NoteRange("synthetic-arena", base, base+uintptr(size))
+	}
 	mem := vkit.Bytes(base, size)
 	next := 0
 	sh, nsh := vkit.Shard()
